@@ -44,6 +44,7 @@ var c06Atoms = []string{
 type c06gen struct {
 	r    *rng
 	nvar int
+	pool []*RT // compounds generated so far: reused by pointer, so that the built term shares them
 }
 
 func (g *c06gen) atom() *RT { return &RT{K: 'a', S: c06Atoms[g.r.intn(len(c06Atoms))]} }
@@ -74,7 +75,20 @@ func (g *c06gen) number() *RT {
 	}
 }
 
+// term: a generated term; now and then a compound generated earlier is used again (the same
+// Go value occurs twice in the term that is built: a DAG, not a tree)
 func (g *c06gen) term(depth int) *RT {
+	if depth > 0 && len(g.pool) > 0 && g.r.intn(9) == 0 {
+		return g.pool[g.r.intn(len(g.pool))]
+	}
+	t := g.term0(depth)
+	if t.K == 'c' && len(g.pool) < 8 {
+		g.pool = append(g.pool, t)
+	}
+	return t
+}
+
+func (g *c06gen) term0(depth int) *RT {
 	if depth <= 0 {
 		switch g.r.intn(5) {
 		case 0:
@@ -185,8 +199,16 @@ func (g *c06gen) term(depth int) *RT {
 }
 
 // build: goals that construct the term without going through the reader for atoms, floats and compounds
+// c06built: the variable that holds a compound already built in this query (shared subterms)
+var c06built = map[*RT]string{}
+
 func (t *RT) build(goals *[]string, args *[]interface{}, n *int) string {
 	fresh := func(p string) string { *n++; return fmt.Sprintf("%s%d", p, *n) }
+	if t.K == 'c' {
+		if v, ok := c06built[t]; ok {
+			return v
+		}
+	}
 	switch t.K {
 	case 'a':
 		v := fresh("A")
@@ -213,6 +235,7 @@ func (t *RT) build(goals *[]string, args *[]interface{}, n *int) string {
 	}
 	v := fresh("C")
 	*goals = append(*goals, fmt.Sprintf("%s =.. [%s]", v, strings.Join(append([]string{f}, as...), ",")))
+	c06built[t] = v
 	return v
 }
 
@@ -268,6 +291,7 @@ func runC06(outDir string, seed int64, tier string) {
 		var goals []string
 		var args []interface{}
 		cnt := 0
+		c06built = map[*RT]string{}
 		top := t.build(&goals, &args, &cnt)
 		ops := c06Ops(rr)
 		if id%3 == 0 {
@@ -286,6 +310,41 @@ func runC06(outDir string, seed int64, tier string) {
 				ops = []c06op{{700, "xfx", name}}
 			}
 			goals, args, cnt = nil, nil, 0
+			c06built = map[*RT]string{}
+			top = t.build(&goals, &args, &cnt)
+		}
+		if id >= 48 && id < 48+40 {
+			// a compound of arity 1, 2 or 3 that occurs more than once in the term, as the same value
+			k := id - 48
+			zero := &RT{K: 'i', I: 0}
+			subs := []*RT{
+				{K: 'c', S: "s", Args: []*RT{zero}},
+				{K: 'c', S: "s", Args: []*RT{{K: 'c', S: "s", Args: []*RT{zero}}}},
+				{K: 'c', S: "-", Args: []*RT{{K: 'i', I: 1}}},
+				{K: 'c', S: "g", Args: []*RT{{K: 'a', S: "a"}, {K: 'a', S: "b"}}},
+				{K: 'c', S: "h", Args: []*RT{zero, zero, zero}},
+			}
+			sub := subs[k%5]
+			switch k / 5 {
+			case 0:
+				t = &RT{K: 'c', S: "f", Args: []*RT{sub, sub}}
+			case 1:
+				t = &RT{K: 'c', S: "f", Args: []*RT{sub, {K: 'c', S: "k", Args: []*RT{sub}}}}
+			case 2:
+				t = &RT{K: 'l', S: ".", Args: []*RT{sub, {K: 'l', S: ".", Args: []*RT{sub, {K: 'a', S: "[]"}}}}}
+			case 3:
+				t = &RT{K: 'c', S: "f", Args: []*RT{sub, {K: 'a', S: "x"}, sub}}
+			case 4:
+				t = &RT{K: 'c', S: "+", Args: []*RT{sub, sub}}
+			case 5:
+				t = &RT{K: 'c', S: "f", Args: []*RT{{K: 'c', S: "k", Args: []*RT{sub}}, {K: 'c', S: "k", Args: []*RT{sub}}}}
+			case 6:
+				t = &RT{K: 'c', S: "s", Args: []*RT{{K: 'c', S: "f", Args: []*RT{sub, sub}}}}
+			default:
+				t = &RT{K: 'c', S: "f", Args: []*RT{sub, sub, sub}}
+			}
+			goals, args, cnt = nil, nil, 0
+			c06built = map[*RT]string{}
 			top = t.build(&goals, &args, &cnt)
 		}
 		dq := []string{"codes", "chars", "atom"}[rr.intn(3)]
